@@ -301,5 +301,14 @@ def run(chk, prog):
     for fq_ in prog.functions.values():
         if fq_.get("body") and fq_["name"] in ("updateSM", "genHInfo") and (fq_.get("class") or "").startswith("vfps::"):
             no_state_between_calls(chk, fq_, "R7")
+    # ---- R8: `bit for bit` presupposes the default floating-point environment ------------------------------------------------------------
+    from .common import fp_environment_untouched
+    fp_environment_untouched(chk, prog, "R8")
+    # ---- R9: the source index of a shifted cell is computed in the grid's index width ------------------------------------------------------
+    from .common import no_index_narrowing
+    nconv_ = no_index_narrowing(chk, prog, "R9", lambda f: f.get("class") in ("vfps::SourceMap", "vfps::KickMap", "vfps::RFKickMap", "vfps::DriftMap",
+                                                                                "vfps::WakeKickMap", "vfps::WakePotentialMap", "vfps::DynamicRFKickMap"))
+    chk.floor("R9-integral-conversions", nconv_, 40)
+    chk.ok("R9", "src/SM", "%d integral conversions in the kick/drift map classes examined: no cell index or size passes through an 8/16-bit integer" % nconv_)
     chk.notes.append("C02: Lagrange/partition-of-unity identities for orders 1-4 over nodes read from updateSM/genHInfo; "
                      "exact-zero structure at f=0; frac/ipart pairing; bounds-guarded weights. Not decided: rounding over all floats.")
